@@ -1570,7 +1570,7 @@ def family_frontend():
                          '\tvrt.Reset()\n\t_ = Inject()\n\tvrt.Cover("zoo-checked")\n}\n'),
     }
     specs.append(RawSpec(files2, 'copied declarations whose locals collide with each other after renaming (same scope)', family='frontend', extra_pkgs=extra, compile_props=['C01', 'C15', 'C14']))
-    # --- two values of homonymous types from two packages in ONE injector: their package-level variables need distinct names (S135)
+    # --- two values of homonymous types from two packages in ONE injector: their package-level variables need distinct names (S137)
     files = {
         'providers.go': 'package {PKG}\n\nimport (\n\ta "example.com/corpus/{PKG}/a/opts"\n\tb "example.com/corpus/{PKG}/b/opts"\n)\n\ntype Svc struct{ N int }\n\nfunc NewSvc(x a.Options, y b.Options, px *a.Options) Svc { return Svc{N: x.N*100 + y.N*10 + px.N} }\n',
         'wire.go': ('//go:build wireinject\n// +build wireinject\n\npackage {PKG}\n\nimport (\n\t"github.com/google/wire"\n\ta "example.com/corpus/{PKG}/a/opts"\n\tb "example.com/corpus/{PKG}/b/opts"\n)\n\n'
